@@ -213,13 +213,14 @@ CLAIMED.update({
              'earlier members or standing there before): untar_never_escapes / member_never_escapes (`escaped` is unreachable), '
              'tree_stays_closed, dotdot_refused, without_guard_a_directory_is_made_outside (the repaired defect D29 as a '
              'theorem), accepted member / link targets resolve inside, special files refused, extraction stops at the first '
-             'refused member, a benign file is extracted. Tied by extracting generated archives with the real untar_file in a '
+             'refused member; benign_archive_extracted: an archive of regular files with plain names of any depth (none below '
+             'another) is extracted entirely, every member with its content. Tied by extracting generated archives with the real untar_file in a '
              'sandbox and comparing the resulting tree and error family with the model; the oracle checks that nothing '
              'outside the destination changed.',
         note=COMMON_NOTE + 'PARTIAL: the kernel path walk, os.makedirs and the tarfile library are modelled, not verified '
              '(the correspondence is the tie); archives whose hard-link members fall back to copying are reported by the model '
-             'as unmodelled and checked by the oracle only; extraction of benign members with their content is proved for '
-             'one-component names only and otherwise checked by the oracle.',
+             'as unmodelled and checked by the oracle only; benign archives holding directory members or repeated names, and file '
+             'permissions, are checked by the oracle only.',
         technique='Lean 4 proof (invariant over the makedirs walk, kernel-walk vs realpath refinement) on a file-system model of extraction + sandboxed differential extraction',
         design_ref='DESIGN.md §6 C18'),
 })
